@@ -31,6 +31,7 @@ vars == <<i, l, live, succ, succc, bad, fin>>
 Case  == Cases[i]
 Props == {Case.props[j] : j \in DOMAIN Case.props}
 
+NoReplace == "noreplace" \in DOMAIN Case /\ Case.noreplace = TRUE
 Remove(s, x) == SelectSeq(s, LAMBDA y : y # x)
 InSeq(s, x) == \E j \in DOMAIN s : s[j] = x
 
@@ -68,9 +69,20 @@ Consume ==
   /\ ~fin /\ l <= Len(Case.steps)
   /\ LET st == Case.steps[l] IN
      CASE st.op = "register" ->
-            /\ live' = Append(live, st.m)
-            /\ succ' = {} /\ succc' = {}
-            /\ bad' = IF InSeq(live, st.m) /\ bad = "" THEN "premise.double_register@" \o ToString(l) ELSE bad
+            \* X3 (beyond the listed properties): a function created with allow_replacement=False refuses a method
+            \* whose signature (Resolve.tla SigNP, and priority) a registered method already has, and stays as it was
+            LET refused == "out" \in DOMAIN st /\ st.out = "refused"
+                x3 == IF NoReplace
+                      THEN (IF refused # (\E j \in DOMAIN live : Case.sigs[live[j]] = Case.sigs[st.m])
+                            THEN "X3:refused_iff_same_signature" ELSE "")
+                      ELSE (IF refused THEN "X3:refused_without_being_asked" ELSE "")
+            IN
+            /\ live' = IF refused THEN live ELSE Append(live, st.m)
+            /\ succ' = (IF refused THEN succ ELSE {})
+            /\ succc' = (IF refused THEN succc ELSE {})
+            /\ bad' = IF InSeq(live, st.m) /\ bad = "" THEN "premise.double_register@" \o ToString(l)
+                      ELSE IF x3 # "" THEN bad \o (IF bad = "" THEN "" ELSE ",") \o x3 \o "@" \o ToString(l) \o "#0"
+                      ELSE bad
        [] st.op = "unregister" ->
             /\ live' = Remove(live, st.m)
             /\ succ' = {} /\ succc' = {}
